@@ -402,13 +402,16 @@ CHECKS["C09"] = {
         {"harness": "VerifC09Aggregate", "params": {"n": 3, "nv": 1, "m": [2, 3]}, "redirects": _C9R},
         {"harness": "VerifC09Att", "params": {"n": 4, "idx": [0, 1, 2, 3], "prime": 0}, "redirects": _C9R},
         {"harness": "VerifC09Att", "params": {"n": 4, "idx": [0, 2], "prime": 1}, "redirects": _C9R},
+        # the production verifier (sigagg.NewVerifier) on real signed types around a fork boundary
+        {"harness": "VerifC09Verifier", "params": {"kind": [0, 1], "pk": [0, 1]}},
     ],
     "thorough": [
         {"harness": "VerifC09Aggregate", "params": {"n": [3, 4, 5, 6, 7], "nv": [1, 2], "m": [2, 3, 4, 5, 6]}, "redirects": _C9R, "cross": True},
         {"harness": "VerifC09Att", "params": {"n": [4, 5, 7], "idx": [0, 1, 2, 3, 4], "prime": [0, 1]}, "redirects": _C9R, "cross": True},
+        {"harness": "VerifC09Verifier", "params": {"kind": [0, 1], "pk": [0, 1]}, "cross": True},
     ],
     "bounds": {
-        "quick": "two calls on one aggregator (a valid aggregation over another content first; the partials of the second call may reuse signatures made over the first content); real attestation objects: n=4, threshold-many core.VersionedAttestation partials (phase0 form) with symbolic content, symbolic token fields and a symbolic choice of whose content each partial signature is over; none / the first / a later partial carries the VC-only ValidatorIndex (the object the group signature is injected into): published exactly when all partials sign the published object's root, the published object is the verified one; n in {3,4}, threshold ceil(2n/3); one Aggregate call over 1 or 2 validators with 2..4 partials each; share index (1..n), signed root and all four signature-token fields of every partial symbolic (wrong share, wrong index, other message, invalid, repeated share, too few are all instances)",
+        "quick": "the production verifier sigagg.NewVerifier (core.VerifyEth2SignedData, the type's own Epoch/DomainName/MessageRoot, signing.Verify) on a real sync committee message and a real voluntary exit with symbolic slot / epoch / content and symbolic ingredients of the aggregate signature (group key, signed content, domain, fork) around a fork at epoch 20: accepted exactly for the object's own signing root, domain and epoch; two calls on one aggregator (a valid aggregation over another content first; the partials of the second call may reuse signatures made over the first content); real attestation objects: n=4, threshold-many core.VersionedAttestation partials (phase0 form) with symbolic content, symbolic token fields and a symbolic choice of whose content each partial signature is over; none / the first / a later partial carries the VC-only ValidatorIndex (the object the group signature is injected into): published exactly when all partials sign the published object's root, the published object is the verified one; n in {3,4}, threshold ceil(2n/3); one Aggregate call over 1 or 2 validators with 2..4 partials each; share index (1..n), signed root and all four signature-token fields of every partial symbolic (wrong share, wrong index, other message, invalid, repeated share, too few are all instances)",
         "thorough": "n in 3..7, up to 6 partials per validator, both solvers",
     },
     "outside": "the BLS algebra itself (C08: ideal functionality instead); NewVerifier -> core.VerifyEth2SignedData -> signing.Verify (domain, epoch and fork handling of the real verifier; the harness verifier checks the group token against the object's own root); real SignedData types and the VersionedAttestation ValidatorIndex special case; SSZ roots",
